@@ -15,7 +15,7 @@ use serde::{Deserialize, Serialize};
 use serde_json::json;
 use std::sync::{Arc, Mutex, OnceLock};
 
-pub const RULE: &str = "(position with <= 64 legal moves: few-piece endgames, cage/pin themes, small placements, reachable walks; depth 2..3; 0..3 prior searches run sequentially in a 1-thread pool to fix the initial cache contents) x (rayon pool of 2/3/4/16/64 threads uncontrolled; pool of 64 threads under the controlled scheduler with a generated strategy: in-order, permuted run-to-completion, PCT priorities with change points, round-robin quantum, random walk). The scheduler (a SearchObserver installed through the cfg(chess_verif) hooks) parks every root-move task at TaskBegin, then lets exactly one task run at a time and hands over only at shared-cache reads / writes and task ends, so the interleaving of cache accesses is a generated input. Oracle: (move tuple, last_score) of every run == the 1-thread in-order run on a freshly prepared identical context; a panic under any schedule is a violation; a stall is reported as inconclusive (exit 2). Non-trivial = the controlled run switched tasks at a cache access at least once and saw at least one cache hit on an entry written by another task; distinct = (position, prior, strategy) hash.";
+pub const RULE: &str = "(position with <= 64 legal moves: few-piece endgames, cage/pin themes, small placements, reachable walks; depth 2..4 (4 only for <= 4 men, 3 for <= 8 men); 0..3 prior searches run sequentially in a 1-thread pool to fix the initial cache contents) x (rayon pool of 2/3/4/16/64 threads uncontrolled; pool of 64 threads under the controlled scheduler with a generated strategy: in-order, permuted run-to-completion, PCT priorities with change points, round-robin quantum, random walk, explicit single preemptions of a run-to-completion order; when a run shows a cache entry that was stored and later replaced by a different value, further single-preemption schedules are aimed at those store steps - the observation only directs the search, the verdict is always the comparison below). The scheduler (a SearchObserver installed through the cfg(chess_verif) hooks) parks every root-move task at TaskBegin, then lets exactly one task run at a time and hands over only at shared-cache reads / writes and task ends, so the interleaving of cache accesses is a generated input. Oracle: (move tuple, last_score) of every run == the 1-thread in-order run on a freshly prepared identical context; a panic under any schedule is a violation; a stall is reported as inconclusive (exit 2). Non-trivial = the controlled run switched tasks at a cache access at least once and saw at least one cache hit on an entry written by another task; distinct = (position, prior, strategy) hash.";
 
 #[derive(Clone, Debug, Serialize, Deserialize)]
 pub struct SchedCase {
@@ -24,6 +24,10 @@ pub struct SchedCase {
     pub prior: u8,
     pub pool: u8,
     pub strategies: Vec<Sch>,
+    /// explicit single-preemption schedules: run to completion in the priority order of the
+    /// first `Permuted` strategy, preempting the running task at these steps
+    #[serde(default)]
+    pub preempt_at: Vec<u16>,
 }
 
 fn strategy_strategy() -> BoxedStrategy<Sch> {
@@ -117,33 +121,48 @@ impl Prop for C09Schedules {
         (
             prop_oneof![
                 // the fewer the men, the more transpositions between root-move subtrees
-                6 => gen::endgame(2).prop_map(move |r| zero(gen::build(&r))),
+                4 => gen::endgame(2).prop_map(move |r| zero(gen::build(&r))),
+                4 => gen::pawn_race().prop_map(move |r| zero(gen::build(&r))),
                 3 => gen::endgame(4).prop_map(move |r| zero(gen::build(&r))),
                 1 => gen::cage_theme().prop_map(move |r| zero(gen::build(&r))),
                 1 => gen::placement(8).prop_map(move |r| zero(gen::build(&r))),
                 1 => gen::walk(40).prop_map(move |w| zero(gen::walk_end(&w))),
             ],
-            prop_oneof![1 => Just(2u8), 4 => Just(3u8)],
+            // depth 4 (tiny positions only) is the first depth at which a transposition between
+            // two root-move subtrees is an interior node
+            prop_oneof![1 => Just(2u8), 3 => Just(3u8), 3 => Just(4u8)],
             0u8..=3,
             0u8..5,
             prop::collection::vec(strategy_strategy(), nsched..=nsched),
+            prop::collection::vec(any::<u16>(), 1..40),
+            prop::collection::vec(1u16..1500, 0..3),
         )
-            .prop_map(|(fen, depth, prior, pool, strategies)| SchedCase {
-                fen,
-                depth,
-                prior,
-                pool,
-                strategies,
+            .prop_map(|(fen, depth, prior, pool, mut strategies, perm, preempt_at)| {
+                // always one plain run-to-completion order: its prefix is what directed
+                // single-preemption schedules extend
+                strategies.insert(0, Sch::Permuted(perm));
+                SchedCase {
+                    fen,
+                    depth,
+                    prior,
+                    pool,
+                    strategies,
+                    preempt_at,
+                }
             })
             .boxed()
     }
     fn cases(&self, tier: Tier) -> u32 {
-        tier.pick(64, 1_200)
+        tier.pick(80, 1_500)
     }
     fn test(&self, c: &SchedCase, st: &mut Stats) -> TestResult {
         let mut pos = Pos::from_fen(&c.fen).map_err(Failure::new)?;
         pos.half = 0;
-        let depth = if pos.men() > 8 { 2 } else { c.depth };
+        let depth = match pos.men() {
+            0..=4 => c.depth,
+            5..=8 => c.depth.min(3),
+            _ => 2,
+        };
         let s = sched();
         // baseline: 1 thread, in order
         let (mut base, root) = match prepare(&pos, depth, c.prior) {
@@ -189,7 +208,21 @@ impl Prop for C09Schedules {
 
         // controlled schedules
         let p64 = ctl_pool();
-        for strat in &c.strategies {
+        let mut work: Vec<Sch> = c.strategies.clone();
+        let first_perm: Option<Vec<u16>> = c.strategies.iter().find_map(|s| match s {
+            Sch::Permuted(p) => Some(p.clone()),
+            _ => None,
+        });
+        if let Some(p) = &first_perm {
+            for k in &c.preempt_at {
+                work.push(Sch::Pct(p.clone(), vec![*k]));
+            }
+        }
+        let mut directed_budget = 24usize;
+        let mut wi = 0;
+        while wi < work.len() {
+            let strat = &work[wi].clone();
+            wi += 1;
             let (mut run, _) = prepare(&pos, depth, c.prior).ok_or_else(|| Failure::new("prepare not reproducible"))?;
             let _guard = CONTROL.lock().unwrap_or_else(|e| e.into_inner());
             s.arm(strat.clone());
@@ -200,6 +233,25 @@ impl Prop for C09Schedules {
             if log.stalled {
                 eprintln!("INCONCLUSIVE: controlled run stalled ({} tasks, strategy {:?})", n_moves, strat);
                 std::process::exit(2);
+            }
+            // feedback: a store that was later replaced by a different value marks a window in
+            // which another task could read a provisional value; preempt the writer right there
+            if let (Sch::Permuted(p), true) = (strat, !log.rewrites.is_empty()) {
+                st.label("provisional-store-observed(diagnostic)");
+                let mut steps: Vec<usize> = log.rewrites.clone();
+                steps.sort();
+                steps.dedup();
+                let stride = (steps.len() / directed_budget.max(1)).max(1);
+                for k in steps.iter().step_by(stride) {
+                    if directed_budget == 0 {
+                        break;
+                    }
+                    directed_budget -= 1;
+                    if *k + 1 < u16::MAX as usize {
+                        work.push(Sch::Pct(p.clone(), vec![(*k + 1) as u16]));
+                        st.count("directed_single_preemption_runs", 1);
+                    }
+                }
             }
             if log.switches > 0 {
                 st.label("switched-at-cache-access");
